@@ -17,6 +17,10 @@
   naturals (every ordering, ties included).
 -/
 import PsutilModel.Proofs.C05
+import PsutilModel.Proofs.C05Parent
+import PsutilModel.Proofs.C05Table
+import PsutilModel.Proofs.C05Spec
+import PsutilModel.Proofs.C05Stat
 import PsutilModel.Model.C05Gen
 namespace Psutil.C05
 open Spec
@@ -115,5 +119,293 @@ theorem C05_no_older (me : Caller) (recursive : Bool) (look0 : Look) (pm : PpidM
   intro c hc
   obtain ⟨_, hch, _⟩ := children_mem me recursive look0 pm look l h c hc
   exact hch.2
+
+/-- **C05_children_table.** On a process table read in one go (any parent links, any start
+    times, PIDs unique) `children()` is exactly the set of rows whose ppid is the caller's PID
+    and whose start time is not before the caller's — minus the caller. -/
+theorem C05_children_table (T : Table) (hT : T.pids.Nodup) (me : Caller) (hr : me.reused = false)
+    (hn : ¬ Recycled (lookOf T) me) :
+    ∃ l, (children cfg me false (lookOf T) (ppidMap T) (lookOf T)).2 = .ok l
+      ∧ IsSetOf l (fun c => ∃ r, ChildT T me.pid me.ctime r ∧ r.pid = c ∧ c ≠ me.pid) := by
+  obtain ⟨l, hl, hnd, hmem⟩ := C05_children_exact me (lookOf T) (ppidMap T) (lookOf T)
+    (uniquePids_ppidMap hT) hr hn
+  refine ⟨l, hl, hnd, fun c => (hmem c).trans ?_⟩
+  show (Child (ppidMap T) (lookOf T) me.ctime me.pid c ∧ c ≠ me.pid) ↔ _
+  rw [child_table_iff hT]
+  constructor
+  · rintro ⟨⟨r, h1, h2⟩, h3⟩; exact ⟨r, h1, h2, h3⟩
+  · rintro ⟨r, h1, h2, h3⟩; exact ⟨⟨r, h1, h2⟩, h3⟩
+
+/-! ## The caller's identity -/
+
+/-- **C05_recycled_caller_NSP (children).** If the caller's PID now belongs to a process with
+    another start time, `children()` raises `NoSuchProcess(pid)` — provided the object has not
+    been found gone earlier (see `C05_recycled_after_gone_counterexample`). -/
+theorem C05_recycled_caller_NSP (me : Caller) (recursive : Bool) (look0 : Look) (pm : PpidMap)
+    (look : Look) (hg : me.gone = false ∨ me.reused = true) (h : Recycled look0 me) :
+    (children cfg me recursive look0 pm look).2 = .nsp me.pid := by
+  simp [children, cfg_good.childrenGuarded, raise_true hg h]
+
+/-- **C05_recycled_caller_NSP (parent, parents).** Same for `parent()` and `parents()`, for a
+    caller that is not the root (lowest listed PID) of the table. -/
+theorem C05_recycled_caller_NSP_parent (ps : Ps) (T : Table) (me : Caller)
+    (hfresh : ps.lowest = none ∨ ps.lowest = minPid? T) (hroot : isRoot T me.pid = false)
+    (hg : me.gone = false ∨ me.reused = true) (h : Recycled (lookOf T) me) :
+    (parent cfg ps T me).2.2 = .nsp me.pid ∧ (parents cfg ps T me).2 = .nsp me.pid := by
+  obtain ⟨s, hs, hne⟩ := h
+  obtain ⟨r, hfind, _⟩ := lookOf_some hs
+  obtain ⟨m, hm⟩ := minPid_some_of_mem (find_some hfind).2
+  have hlow : lowestPid ps T = (⟨some m⟩, some m) := by
+    unfold lowestPid
+    rcases hfresh with h | h
+    · rw [h, hm]
+    · rw [hm] at h
+      have : ps = ⟨some m⟩ := by cases ps; simp_all
+      rw [this]
+  have hbeq : (me.pid == m) = false := by
+    simp [isRoot, hm] at hroot
+    simpa using fun h => hroot h.symm
+  have hp : parent cfg ps T me = (⟨some m⟩, (raiseIfPidReused (lookOf T) me).1, .nsp me.pid) := by
+    unfold parent
+    simp only [cfg_good.lowestStop, if_true, hlow, hbeq, Bool.false_eq_true, if_false]
+    unfold parentCore
+    simp [cfg_good.ppidGuarded, raise_true hg ⟨s, hs, hne⟩]
+  refine ⟨by rw [hp], ?_⟩
+  unfold parents parentsFuel
+  simp [parentsLoop, hp]
+
+/-- the statement without the "not seen gone before" hypothesis -/
+def C05_recycled_caller_NSP_Full : Prop :=
+  ∀ (me : Caller) (recursive : Bool) (look0 : Look) (pm : PpidMap) (look : Look),
+    Recycled look0 me → (children cfg me recursive look0 pm look).2 = .nsp me.pid
+
+/-- The full statement is **false** of the code: an object that `is_running()` has once seen
+    gone (`_gone = True`) never re-checks its identity, so when PID 5 is recycled afterwards
+    `children()` answers for the new process 5 (`[6]`) instead of raising NoSuchProcess. -/
+theorem C05_recycled_after_gone_counterexample : ¬ C05_recycled_caller_NSP_Full := by
+  intro h
+  have := h ⟨5, 10, true, false⟩ false (lookOf [⟨1, 0, 1⟩, ⟨5, 1, 15⟩, ⟨6, 5, 20⟩])
+    (ppidMap [⟨1, 0, 1⟩, ⟨5, 1, 15⟩, ⟨6, 5, 20⟩]) (lookOf [⟨1, 0, 1⟩, ⟨5, 1, 15⟩, ⟨6, 5, 20⟩])
+    ⟨15, by decide, by decide⟩
+  revert this
+  decide
+
+/-- …and that state is what the model's `is_running()` produces from a fresh object when the
+    process is gone (`mid` table without PID 5). -/
+example : (isRunning (lookOf [⟨1, 0, 1⟩, ⟨6, 5, 20⟩]) ⟨5, 10, false, false⟩) = (⟨5, 10, true, false⟩, false) := by
+  decide
+
+/-! ## parent() / parents() -/
+
+/-- **C05_parent_spec.** For a caller listed with its own start time, `parent()` is the process
+    named by its ppid unless that PID now belongs to a younger process (then None); the root
+    (lowest listed PID) has no parent; an unlisted ppid gives None. (`_LOWEST_PID` unset or
+    current.) -/
+theorem C05_parent_spec (ps : Ps) (T : Table) (me : Caller)
+    (hfresh : ps.lowest = none ∨ ps.lowest = minPid? T) (hr : me.reused = false)
+    (hl : lookOf T me.pid = some me.ctime) :
+    (parent cfg ps T me).2.2 = .ok (parentOf T me.pid me.ctime) :=
+  (parent_good cfg cfg_good ps T me hfresh hr hl).1
+
+/-- **C05_parents_chain / C05_parents_terminates.** On ANY table (cyclic parent links, equal
+    start times, self-loops) `parents()` returns — within `|T| + 2` iterations — the chain of
+    `parent()`: up to the root, or up to the first process already on the chain. -/
+theorem C05_parents_chain (ps : Ps) (T : Table) (me : Caller)
+    (hfresh : ps.lowest = none ∨ ps.lowest = minPid? T) (hr : me.reused = false)
+    (hl : lookOf T me.pid = some me.ctime) :
+    ∃ l, (parents cfg ps T me).2 = .ok l ∧ Chain T [me.pid] me.pid me.ctime l := by
+  have hlt : unseenCnt T.pids [me.pid] < parentsFuel T := by
+    have := unseenCnt_le_length T.pids [me.pid]
+    have hlen : T.pids.length = T.length := by simp [Table.pids]
+    unfold parentsFuel
+    omega
+  obtain ⟨l, h1, h2⟩ := parentsLoop_good cfg cfg_good T (parentsFuel T) ps [me.pid] me [] hfresh hr hl hlt
+  exact ⟨l, by simpa [parents] using h1, h2⟩
+
+theorem C05_parents_terminates (ps : Ps) (T : Table) (me : Caller)
+    (hfresh : ps.lowest = none ∨ ps.lowest = minPid? T) (hr : me.reused = false)
+    (hl : lookOf T me.pid = some me.ctime) : (parents cfg ps T me).2 ≠ .diverged := by
+  obtain ⟨l, h, _⟩ := C05_parents_chain ps T me hfresh hr hl
+  rw [h]; simp
+
+/-- **C05_parents_to_root.** When the parent links that pass the create-time test are acyclic
+    (witnessed by any rank that strictly decreases from child to parent — on a real system:
+    start time, ties broken by the order of creation) the chain is the plain iteration of
+    `parent()` up to the root: nothing is cut. -/
+theorem C05_parents_to_root (ps : Ps) (T : Table) (me : Caller)
+    (hfresh : ps.lowest = none ∨ ps.lowest = minPid? T) (hr : me.reused = false)
+    (hl : lookOf T me.pid = some me.ctime) (rk : Nat → Nat)
+    (hrk : ∀ r ∈ T, ∀ q ∈ T, q.pid = r.ppid → isRoot T r.pid = false → q.start ≤ r.start →
+      rk q.pid < rk r.pid) :
+    ∃ l, (parents cfg ps T me).2 = .ok l ∧ ChainToRoot T me.pid me.ctime l := by
+  obtain ⟨l, h1, h2⟩ := C05_parents_chain ps T me hfresh hr hl
+  refine ⟨l, h1, chain_toRoot rk hrk hl ?_ h2⟩
+  intro s hs
+  rw [List.mem_singleton] at hs
+  subst hs
+  exact Nat.le_refl _
+
+/-! ## The specification functions the driver prints are the relations above -/
+
+theorem C05_spec_childList (links : PpidMap) (hu : UniquePids links) (look : Look) (ct root : Nat) :
+    IsSetOf (childList links look ct root) (fun c => Child links look ct root c ∧ c ≠ root) :=
+  ⟨childList_nodup hu look ct root, fun _ => mem_childList⟩
+
+theorem C05_spec_descList (links : PpidMap) (look : Look) (ct root : Nat)
+    (hc : closed links look ct root (descSat links look ct root) = true) :
+    IsSetOf (descList links look ct root) (fun c => Desc links look ct root c ∧ c ≠ root) :=
+  descList_exact hc
+
+theorem C05_spec_chainList (T : Table) (pid ct : Nat) (l : List Row)
+    (h : Chain T [pid] pid ct l) : chainList T (T.length + 1) [pid] pid ct = l := by
+  have hlt : unseenCnt T.pids [pid] < T.length + 1 := by
+    have := unseenCnt_le_length T.pids [pid]
+    have hlen : T.pids.length = T.length := by simp [Table.pids]
+    omega
+  exact chain_unique (chainList_chain T _ _ _ _ hlt) h
+
+/-! ## Reading the table out of `/proc/<pid>/stat` -/
+
+theorem scfg_good : scfg.Good := by
+  constructor <;> decide
+
+/-- **C05_stat_roundtrip.** For EVERY comm byte string (spaces, parentheses, newlines, …) both
+    `ppid_map()` and `_parse_stat_file()` recover the ppid and the start time the kernel wrote. -/
+theorem C05_stat_roundtrip (pid : Nat) (comm state : Bytes) (ppid : Nat) (pre : List Bytes)
+    (start : Nat) (post : List Bytes) (hst : Tok state) (hpre : ∀ t ∈ pre, Tok t)
+    (hpost : ∀ t ∈ post, Tok t) (hlen : pre.length = 17) (hpl : 17 ≤ post.length) :
+    mapEntry scfg (renderStat pid comm state ppid pre start post) = .ok ppid
+    ∧ statPpid scfg (renderStat pid comm state ppid pre start post) = .ok ppid
+    ∧ statCtime scfg (renderStat pid comm state ppid pre start post) = .ok start :=
+  stat_roundtrip scfg scfg_good pid comm state ppid pre start post hst hpre hpost hlen hpl
+
+/-! ## Why each fact of `cfg_good` matters (counterexamples for the other configurations) -/
+
+/-- the configuration of the repaired code, written out -/
+def fixedCfg : Cfg := ⟨.le, .le, .le, true, true, true, true, true, true⟩
+
+theorem fixedCfg_good : fixedCfg.Good := by constructor <;> rfl
+
+/-- psutil up to 7.x: `children()` keeps the caller's own entry, `parents()` has no cycle stop -/
+def preFixCfg : Cfg := { fixedCfg with skipSelf := false, parentsSeen := false }
+
+def cyc : Table := [⟨20, 21, 5⟩, ⟨21, 20, 5⟩, ⟨1, 0, 1⟩]
+def selfLoop : Table := [⟨7, 7, 5⟩, ⟨1, 0, 1⟩]
+
+/-- **L6.** With `ppid(20)=21, ppid(21)=20` the pre-fix `children(recursive=True)` of process 20
+    contains 20 itself; with a self-loop both modes return the process itself. The repaired
+    configuration returns `[21]` and `[]`. -/
+theorem C05_L6_self_among_descendants :
+    (children preFixCfg ⟨20, 5, false, false⟩ true (lookOf cyc) (ppidMap cyc) (lookOf cyc)).2 = .ok [21, 20]
+    ∧ (children preFixCfg ⟨7, 5, false, false⟩ false (lookOf selfLoop) (ppidMap selfLoop) (lookOf selfLoop)).2 = .ok [7]
+    ∧ (children preFixCfg ⟨7, 5, false, false⟩ true (lookOf selfLoop) (ppidMap selfLoop) (lookOf selfLoop)).2 = .ok [7]
+    ∧ (children fixedCfg ⟨20, 5, false, false⟩ true (lookOf cyc) (ppidMap cyc) (lookOf cyc)).2 = .ok [21]
+    ∧ (children fixedCfg ⟨7, 5, false, false⟩ true (lookOf selfLoop) (ppidMap selfLoop) (lookOf selfLoop)).2 = .ok [] := by
+  decide
+
+/-- **L7.** Without the cycle stop `parents()` of process 20 never returns on the 2-cycle of
+    equal start times: the loop is still running after ANY number of iterations. -/
+theorem C05_L7_parents_diverges (fuel : Nat) :
+    (parentsLoop preFixCfg cyc fuel ⟨none⟩ [20] ⟨20, 5, false, false⟩ []).2 = .diverged := by
+  have key : ∀ (fuel : Nat) (ps : Ps) (seen : List Nat) (cur : Caller) (acc : List Row),
+      (ps = ⟨none⟩ ∨ ps = ⟨some 1⟩) →
+      (cur = ⟨20, 5, false, false⟩ ∨ cur = ⟨21, 5, false, false⟩) →
+      (parentsLoop preFixCfg cyc fuel ps seen cur acc).2 = .diverged := by
+    intro fuel
+    induction fuel with
+    | zero => intro ps seen cur acc _ _; rfl
+    | succ fuel ih =>
+      intro ps seen cur acc hps hcur
+      have h20 : ∀ ps, (ps = ⟨none⟩ ∨ ps = ⟨some 1⟩) →
+          parent preFixCfg ps cyc ⟨20, 5, false, false⟩ = (⟨some 1⟩, ⟨20, 5, false, false⟩, .ok (some ⟨21, 20, 5⟩)) := by
+        intro ps h; rcases h with rfl | rfl <;> decide
+      have h21 : ∀ ps, (ps = ⟨none⟩ ∨ ps = ⟨some 1⟩) →
+          parent preFixCfg ps cyc ⟨21, 5, false, false⟩ = (⟨some 1⟩, ⟨21, 5, false, false⟩, .ok (some ⟨20, 21, 5⟩)) := by
+        intro ps h; rcases h with rfl | rfl <;> decide
+      rcases hcur with rfl | rfl
+      · simp only [parentsLoop, h20 ps hps]
+        exact ih _ _ _ _ (Or.inr rfl) (Or.inr rfl)
+      · simp only [parentsLoop, h21 ps hps]
+        exact ih _ _ _ _ (Or.inr rfl) (Or.inl rfl)
+  exact key fuel _ _ _ _ (Or.inl rfl) (Or.inl rfl)
+
+/-- …while the repaired `parents()` answers `[21]` on the same table. -/
+example : (parents fixedCfg ⟨none⟩ cyc ⟨20, 5, false, false⟩).2 = .ok [⟨21, 20, 5⟩] := by decide
+
+/-- the `seen` guard of the recursive walk is what makes it terminate: without it the walk on the
+    2-cycle is still running after ANY number of iterations -/
+theorem C05_walk_diverges_without_seen_guard (fuel : Nat) :
+    walk false (accepted .le 5 (lookOf cyc)) (ppidMap cyc) fuel [] [20] [] = none := by
+  have key : ∀ (fuel : Nat) (seen rest ret : List Nat) (top : Nat), (top = 20 ∨ top = 21) →
+      walk false (accepted .le 5 (lookOf cyc)) (ppidMap cyc) fuel seen (top :: rest) ret = none := by
+    intro fuel
+    induction fuel with
+    | zero => intro _ _ _ _ _; rfl
+    | succ fuel ih =>
+      intro seen rest ret top htop
+      have k20 : (kidsOf (ppidMap cyc) 20).filter (accepted .le 5 (lookOf cyc)) = [21] := by decide
+      have k21 : (kidsOf (ppidMap cyc) 21).filter (accepted .le 5 (lookOf cyc)) = [20] := by decide
+      rcases htop with rfl | rfl
+      · simp only [walk, Bool.false_and, Bool.false_eq_true, if_false, k20]
+        exact ih _ _ _ 21 (Or.inr rfl)
+      · simp only [walk, Bool.false_and, Bool.false_eq_true, if_false, k21]
+        exact ih _ _ _ 20 (Or.inl rfl)
+  exact key fuel [] [] [] 20 (Or.inl rfl)
+
+/-- a strict `<` in the create-time test would lose children started in the caller's own clock tick -/
+example : (children { fixedCfg with childOp := .lt } ⟨1, 5, false, false⟩ false
+    (lookOf [⟨1, 0, 5⟩, ⟨2, 1, 5⟩]) (ppidMap [⟨1, 0, 5⟩, ⟨2, 1, 5⟩]) (lookOf [⟨1, 0, 5⟩, ⟨2, 1, 5⟩])).2 = .ok []
+  ∧ (children fixedCfg ⟨1, 5, false, false⟩ false
+    (lookOf [⟨1, 0, 5⟩, ⟨2, 1, 5⟩]) (ppidMap [⟨1, 0, 5⟩, ⟨2, 1, 5⟩]) (lookOf [⟨1, 0, 5⟩, ⟨2, 1, 5⟩])).2 = .ok [2] := by
+  decide
+
+/-! ## Non-vacuity: the hypotheses are met by ordinary tables, and the results are what one expects -/
+
+/-- the tree of the docstring of `children()`: A=10, B=11, X=12, Y=13, C=14, D=15 -/
+def docTree : Table :=
+  [⟨1, 0, 0⟩, ⟨10, 1, 5⟩, ⟨11, 10, 6⟩, ⟨12, 11, 7⟩, ⟨13, 12, 8⟩, ⟨14, 10, 6⟩, ⟨15, 10, 9⟩]
+
+example : docTree.pids.Nodup ∧ UniquePids (ppidMap docTree)
+    ∧ ¬ Recycled (lookOf docTree) ⟨10, 5, false, false⟩ := by
+  refine ⟨by decide, by unfold UniquePids; decide, ?_⟩
+  rintro ⟨s, hs, hne⟩
+  have : s = 5 := by
+    have h : lookOf docTree 10 = some 5 := by decide
+    rw [h] at hs; exact (Option.some.inj hs).symm
+  exact hne this
+
+example : (children cfg ⟨10, 5, false, false⟩ false (lookOf docTree) (ppidMap docTree) (lookOf docTree)).2
+      = .ok [11, 14, 15]
+    ∧ (children cfg ⟨10, 5, false, false⟩ true (lookOf docTree) (ppidMap docTree) (lookOf docTree)).2
+      = .ok [11, 14, 15, 12, 13]
+    ∧ (parents cfg ⟨none⟩ docTree ⟨13, 8, false, false⟩).2
+      = .ok [⟨12, 11, 7⟩, ⟨11, 10, 6⟩, ⟨10, 1, 5⟩, ⟨1, 0, 0⟩] := by
+  decide
+
+/-- "if process X disappears process Y won't be listed": X=12 vanishes after the snapshot -/
+example : (children cfg ⟨10, 5, false, false⟩ true (lookOf docTree) (ppidMap docTree)
+    (lookOf (docTree.filter fun r => r.pid != 12))).2 = .ok [11, 14, 15] := by
+  decide
+
+/-- the rank hypothesis of `C05_parents_to_root` holds for the docstring tree (rank = PID) -/
+example : ∀ r ∈ docTree, ∀ q ∈ docTree, q.pid = r.ppid → isRoot docTree r.pid = false →
+    q.start ≤ r.start → id q.pid < id r.pid := by
+  decide
+
+/-- a recycled caller: the object was built for (5, start 10), PID 5 now started at 15 -/
+example : Recycled (lookOf [⟨1, 0, 1⟩, ⟨5, 1, 15⟩]) ⟨5, 10, false, false⟩ := ⟨15, by decide, by decide⟩
+
+/-- the stat line hypotheses are met by a real-looking record with a hostile comm -/
+example : Tok [83] ∧ (∀ t ∈ List.replicate 17 [48], Tok t) ∧ (∀ t ∈ List.replicate 30 [48], Tok t) := by
+  have h : ∀ b : Nat, isWs b = false → b ≠ 41 → Tok [b] := by
+    intro b h1 h2
+    refine ⟨by simp, ?_, by simpa using h2.symm⟩
+    intro c hc
+    rw [List.mem_singleton] at hc
+    rw [hc]; exact h1
+  refine ⟨h 83 (by decide) (by decide), ?_, ?_⟩ <;>
+  · intro t ht
+    rw [List.eq_of_mem_replicate ht]
+    exact h 48 (by decide) (by decide)
 
 end Psutil.C05
